@@ -27,6 +27,7 @@ RULE = ('cf: reference dates 1900-2100 in every spelling the parser lists '
         'thorough adds the exhaustive sweep: every day of 1899-2101 x 4 '
         'units (standard calendar). only decodings that RETURN are judged. '
         'evaluations = decode calls; distinct = digest of the spec.')
+RULE += (' Also: flags at uneven spacing (index-list selection) decoded with bounds; a re-dated file (TFLAG edited in place) synthesised a second time; IOAPI files opened from disk, bounds on.')
 ASSUMPTIONS = [
     'cftime 1.6.5 is an independent, correct implementation of CF time for '
     'the calendars used (years 1900-2100, so Julian/Gregorian mixing is not '
